@@ -487,6 +487,10 @@ func tailCallFuncs(p *wgen.Program) map[fid]bool {
 	return out
 }
 
+// hostCloseCase: the run uses WithCloseOnContextDone(true) and lets the guest's hclose import close
+// the module in the middle of a call (set per case by child).
+var hostCloseCase bool
+
 func runWith(p *wgen.Program, script []wrun.Step, compiler bool, mode int, subsetSeed uint64, cache wazero.CompilationCache) *runOut {
 	rec := &recorder{engine: map[bool]string{false: "interp", true: "compiler"}[compiler], all: mode == 1, tcFuncs: tailCallFuncs(p), counts: map[string]int{}}
 	rec.listened = func(f fid) bool {
@@ -515,8 +519,16 @@ func runWith(p *wgen.Program, script []wrun.Step, compiler bool, mode int, subse
 		}
 	}
 	opt.Ctx = ctx
-	if cache != nil {
-		opt.RuntimeConfig = func(rc wazero.RuntimeConfig) wazero.RuntimeConfig { return rc.WithCompilationCache(cache) }
+	opt.HostClose = hostCloseCase
+	hc := hostCloseCase
+	opt.RuntimeConfig = func(rc wazero.RuntimeConfig) wazero.RuntimeConfig {
+		if cache != nil {
+			rc = rc.WithCompilationCache(cache)
+		}
+		if hc {
+			rc = rc.WithCloseOnContextDone(true)
+		}
+		return rc
 	}
 	s := wrun.NewSession(opt, wrun.Features(p.Cfg))
 	defer s.Close()
@@ -556,7 +568,11 @@ func child(mode string, in json.RawMessage) any {
 	p := wgen.Generate(r, cfg)
 	script := wrun.GenScript(r, p, 3+r.Intn(6))
 	subsetSeed := r.U64()
+	hostCloseCase = lc.Seed%3 == 0 // a third of the cases: module closed mid-call under close-on-context-done
 	lr := lresult{Events: map[string]int{}}
+	if hostCloseCase {
+		lr.Events["cases_with_host_close_enabled"] = 1
+	}
 	add := func(sig, detail string) {
 		for _, f := range lr.Findings {
 			if f.Sig == sig {
